@@ -682,3 +682,102 @@ func blockedInWriteFrame() int {
 	}
 	return c
 }
+
+// TestC09SlowAsyncErrorHandler: the fire-and-forget sender of generation N is still busy - inside the
+// application's async-send error callback - when generation N+1 is already Selected; frames still
+// queued on N are N's: they are discarded, never written to N+1's socket.
+func TestC09SlowAsyncErrorHandler(t *testing.T) {
+	ev.Rule("HSMS-SS, both roles, virtual time; close timeout 300 ms; WithAsyncSendErrorHandler set to a callback that blocks 0.5-1.5 s; generation N is Selected, the peer stops reading, 3-8 fire-and-forget sends with unique tokens are queued (the first is inside the write), the peer resets the link: the write fails, the callback blocks beyond the close timeout, the library reconnects and generation N+1 is selected; the callback returns; then 1-3 sends of generation N+1. Oracle: the peer of N+1 receives exactly the tokens sent on N+1, none of N's; non-trivial = always")
+	vt.Bubble(t, func(t *testing.T) {
+		vt.CheckBubble(t, 500, 20000, func(rt *rapid.T) {
+			active := rapid.Bool().Draw(rt, "active")
+			block := time.Duration(rapid.SampledFrom([]int{500, 900, 1500}).Draw(rt, "callbackBlocksMs")) * time.Millisecond
+			queued := rapid.IntRange(3, 8).Draw(rt, "queued")
+			later := rapid.IntRange(1, 3).Draw(rt, "later")
+			var calls atomic.Int32
+			w, err := newWorld(worldOpt{active: active, connOpts: []hsms.ConnOption{hsms.WithT3(time.Second), hsms.WithT5(20 * time.Millisecond), hsms.WithReconnectBackoff(10*time.Millisecond, 1),
+				hsms.WithT6(5 * time.Second), hsms.WithT7(time.Hour), hsms.WithT8(time.Hour), hsms.WithCloseTimeout(300 * time.Millisecond), hsms.WithWriteTimeout(time.Hour),
+				hsms.WithAsyncSendErrorHandler(func(hsms.Message, error) {
+					if calls.Add(1) == 1 {
+						time.Sleep(block)
+					}
+				})}})
+			if err != nil {
+				rt.Fatalf("VERIF-INFRA: %v", err)
+			}
+			var peers []*netsim.Peer
+			defer func() {
+				_ = w.conn.Close()
+				for _, p := range peers {
+					p.Close()
+				}
+				if w.ln != nil {
+					_ = w.ln.Close()
+				}
+				synctest.Wait()
+			}()
+			if err := w.conn.Open(context.Background(), hsms.OpenBackground); err != nil {
+				rt.Fatalf("VERIF-INFRA: %v", err)
+			}
+			up := func() *netsim.Peer {
+				p, err := w.peerUp(5 * time.Second)
+				if err != nil {
+					rt.Fatalf("C09 violated: the link was not (re-)established: %v", err)
+				}
+				peers = append(peers, p)
+				if err := w.selectAsPeer(p, 0x0100+uint32(len(peers))); err != nil {
+					rt.Fatalf("VERIF-INFRA: select: %v", err)
+				}
+				return p
+			}
+			p1 := up()
+			p1.C.SetInboundWindow(0)
+			p1.C.StallInbound(true)
+			for i := 0; i < queued; i++ {
+				ctx, cancel := ctxT(10 * time.Millisecond)
+				_ = w.conn.SendDataMessageAsync(ctx, 1, 1, false, secs2.A(fmt.Sprintf("t%d", i)))
+				cancel()
+			}
+			synctest.Wait()
+			p1.C.Reset()
+			_ = p1.C.Close()
+			synctest.Wait()
+			p2 := up() // generation N+1, while the callback of N is still blocked
+			if calls.Load() == 0 {
+				rt.Fatalf("VERIF-INFRA: the async-send error callback was never invoked")
+			}
+			time.Sleep(block + 100*time.Millisecond) // the callback returns; N's sender wakes up
+			synctest.Wait()
+			for i := 0; i < later; i++ {
+				ctx, cancel := ctxT(100 * time.Millisecond)
+				if e := w.conn.SendDataMessageAsync(ctx, 1, 1, false, secs2.A(fmt.Sprintf("t%d", 1000+i))); e != nil {
+					cancel()
+					rt.Fatalf("C09 violated: a fire-and-forget send on the new generation was refused: %v", e)
+				}
+				cancel()
+			}
+			synctest.Wait()
+			var got []int
+			for _, rf := range p2.Frames() {
+				if k, ok := tokenOf(rf.F); ok {
+					got = append(got, k)
+				}
+			}
+			for _, k := range got {
+				if k < 1000 {
+					rt.Fatalf("C09 violated (active=%v, callback blocked %v): the peer of the NEW generation received t%d, a fire-and-forget message queued on the previous generation (tokens received: %v)", active, block, k, got)
+				}
+			}
+			if len(got) != later {
+				rt.Fatalf("C09 violated: %d fire-and-forget sends on the new generation, the peer received %v", later, got)
+			}
+			role := "passive"
+			if active {
+				role = "active"
+			}
+			ev.Case(true, fmt.Sprint(active, block, queued, later), func() any {
+				return fmt.Sprintf("%s: %d queued on the dying generation, callback blocked %v, %d sent afterwards", role, queued, block, later)
+			}, "c09a:role:"+role)
+		})
+	})
+}
